@@ -34,8 +34,11 @@ def spec(name="FILE", ext="BIN", ftype=2, dtype=0, load=0x0E00, exec_=0x0E00, n=
 def to_coco(s):
     from cocoasm.virtualfiles.coco_file import CoCoFile
     from cocoasm.values import NumericValue
+    kw = {}
+    if "gaps" in s:       # a file that was read from a tape carries the tape's gap flag
+        kw["gaps"] = NumericValue(s["gaps"])
     return CoCoFile(name=s["name"], extension=s.get("ext", ""), type=NumericValue(s["type"]), data_type=NumericValue(s["dtype"]),
-                    load_addr=NumericValue(s["load"]), exec_addr=NumericValue(s["exec"]), data=list(pattern(s["n"], s["pat"])))
+                    load_addr=NumericValue(s["load"]), exec_addr=NumericValue(s["exec"]), data=list(pattern(s["n"], s["pat"])), **kw)
 
 
 def brief(s):
